@@ -79,7 +79,8 @@ fn rac_lint_group_cache() {
 
 // Every curated rule, on the sentences of the repository's own rule tests (harvested from the tree under check
 // into RAC_LINT_CORPUS), each at three positions: alone, after a heading paragraph, and followed by a tab at the very
-// end of the text; plus a few hand-written texts. BOUNDED stand-in for "every rule reports start <= end <= text
+// end of the text, plus white-space variants (every blank in turn replaced by blank + line break, a line break, two
+// blanks) and a few hand-written texts. BOUNDED stand-in for "every rule reports start <= end <= text
 // length and its suggestions are local edits" (C03), which no contract can reach (~290 rule bodies).
 include!("/verif/.cache/rac-gen/lint_corpus.rs");
 
@@ -95,11 +96,29 @@ fn rac_rule_spans() {
     }
     texts.push(long_sentence.to_string());
     texts.push(format!("# Heading\n\nShort one. {}", long_sentence));
+    // a long sentence whose first token is not a word (emoji, CJK, a symbol)
+    for lead in ["😀 ", "日本 ", "@ ", "( ", "\"", "… "] { texts.push(format!("{}{}", lead, long_sentence)); texts.push(format!("Intro. {}{}", lead, long_sentence)); }
+    // white-space variants of every sentence: each blank in turn (up to 12 per sentence) becomes blank + line break,
+    // a lone line break, or two blanks - rules that count the tokens of a match must cope with all of them
+    for t in RAC_LINT_CORPUS.iter().chain(extra.iter()) {
+        let blanks: Vec<usize> = t.char_indices().filter(|(_, c)| *c == ' ').map(|(i, _)| i).take(12).collect();
+        for b in blanks {
+            for rep in [" \n", "\n", "  ", " \n "] {
+                let mut v = String::with_capacity(t.len() + 2);
+                v.push_str(&t[..b]);
+                v.push_str(rep);
+                v.push_str(&t[b + 1..]);
+                texts.push(v);
+            }
+        }
+    }
+    // a number with more decimals than a formatter precision can hold
+    texts.push(format!("It costs $1.{} today, or 2.{}$ tomorrow.", "0".repeat(70000), "5".repeat(66000)));
     let mut group = LintGroup::new_curated(FstDictionary::curated(), Dialect::American);
     let mut cases = 0u64;
     let mut nontrivial = 0u64;
     // the same sentences through the Markdown front-end, followed by a paragraph break and another paragraph
-    let md_texts: Vec<String> = texts.iter().step_by(3).map(|t| format!("Short one. {}\n\nNext paragraph here.", t)).chain([format!("Short one. {}\n\nNext paragraph here.", long_sentence), format!("Hi. {}\n", vec!["a"; 41].join(" ")), format!("- Item. {}\n- next\n", vec!["word"; 42].join(" ")), format!("# T. {}\n\nBody.\n", vec!["go"; 41].join(" "))]).collect();
+    let md_texts: Vec<String> = texts.iter().step_by(3).map(|t| format!("Short one. {}\n\nNext paragraph here.", t)).chain([format!("Short one. {}\n\nNext paragraph here.", long_sentence), format!("Hi. {}\n", vec!["a"; 41].join(" ")), format!("- Item. {}\n- next\n", vec!["word"; 42].join(" ")), format!("# T. {}\n\nBody.\n", vec!["go"; 41].join(" ")), format!("`code` {}", long_sentence), format!("Intro. `x` {}\n\nEnd.", long_sentence), format!("*{}*", long_sentence)]).collect();
     for t in &md_texts {
         let r = std::panic::catch_unwind(std::panic::AssertUnwindSafe(|| rac_check_doc(&mut group, t, &Document::new_markdown_default_curated(t))));
         cases += 1;
@@ -124,5 +143,5 @@ fn rac_rule_spans() {
             }
         }
     }
-    println!("RAC-OK rule_spans cases={} nontrivial={} bound=rule-test-sentences-x-3-positions", cases, nontrivial);
+    println!("RAC-OK rule_spans cases={} nontrivial={} bound=rule-test-sentences-x-3-positions+white-space-variants", cases, nontrivial);
 }
